@@ -13,6 +13,7 @@ import (
 	"pgregory.net/rapid"
 
 	"github.com/ava-labs/hypersdk/chain"
+	"github.com/ava-labs/hypersdk/state"
 	"github.com/ava-labs/hypersdk/verifharness/fixture"
 	"github.com/ava-labs/hypersdk/verifharness/refmodel"
 	"github.com/ava-labs/hypersdk/verifharness/vstat"
@@ -42,6 +43,9 @@ type c02Case struct {
 	// Bulk: this many extra simple txs (generated from their index) arrive before the first
 	// build: more than one stream batch (256) and the builder's asynchronous PrepareStream
 	Bulk int `json:",omitempty"`
+	// Admit: every tx object first goes through mempool admission (PreExecutor) against a state
+	// with other unit prices, as txs admitted before the fee market moved do
+	Admit bool `json:",omitempty"`
 }
 
 // bulkTx is the i-th extra tx: one action touching one or two universe keys.
@@ -98,6 +102,7 @@ func c02Gen(rt *rapid.T) c02Case {
 			c.Rules.MaxBlockUnits[1] = uint64(c.Bulk) * 2 / 3 * (1 + c.Rules.BaseCompute)
 		}
 	}
+	c.Admit = rapid.Bool().Draw(rt, "admit")
 	total := 0
 	for b := 0; b < nb; b++ {
 		n := rapid.IntRange(0, 10).Draw(rt, fmt.Sprintf("n%d", b))
@@ -194,6 +199,18 @@ func c02Run(c c02Case, st *vstat.Stats) error {
 				allSpec = append(allSpec, spec)
 				txs = append(txs, tx)
 			}
+		}
+		if c.Admit {
+			alt := map[string][]byte{}
+			for k, v := range l.parent0 {
+				alt[k] = v
+			}
+			alt[string(fixture.FeeKey())] = parentFeeBytes([5]uint64{977, 31, 7, 1300, 2}, time.Now().UnixMilli()-1000)
+			pe := chain.NewPreExecutor(fixture.RuleFactory{R: l.rules}, noReplayWindow(), fixture.Metadata(), fixture.BalanceHandler())
+			for _, tx := range txs {
+				_ = pe.PreExecute(ctx, l.genesis.ExecutionBlock, state.ImmutableStorage(alt), tx)
+			}
+			labels["admitted-at-other-prices"] = true
 		}
 		l.mp.Add(ctx, txs)
 		inPool := map[ids.ID]fixture.TxSpec{}
